@@ -845,4 +845,27 @@ mod h {
         assert!(payload_u32(&some) == x && payload_u32(&ok) == x && payload_u32(&acc) == x, "OBL:C05.mirror.payload_at_tag_rounded_up_to_alignment");
         kani::cover!(x == 0xdead_beef, "COV:C05.mirror.payload_value_reached");
     }
+
+    /// C05-U1: the layout Roto assumes for every primitive is the layout of the Rust type the host
+    /// passes for it (size and alignment), so a scalar crosses the boundary unchanged.
+    #[kani::proof]
+    fn c05_u1_primitive_layout_is_the_rust_type_layout() {
+        use crate::typechecker::types::{FloatSize, IntKind, IntSize, Primitive};
+        fn same<T>(p: Primitive) -> bool {
+            let l = p.layout();
+            l.size() == core::mem::size_of::<T>() && l.align() == core::mem::align_of::<T>()
+        }
+        assert!(same::<u8>(Primitive::Int(IntKind::Unsigned, IntSize::I8)) && same::<i8>(Primitive::Int(IntKind::Signed, IntSize::I8)), "OBL:C05.primitive.layout_of_8_bit_integers_is_u8_i8");
+        assert!(same::<u16>(Primitive::Int(IntKind::Unsigned, IntSize::I16)) && same::<i16>(Primitive::Int(IntKind::Signed, IntSize::I16)), "OBL:C05.primitive.layout_of_16_bit_integers_is_u16_i16");
+        assert!(same::<u32>(Primitive::Int(IntKind::Unsigned, IntSize::I32)) && same::<i32>(Primitive::Int(IntKind::Signed, IntSize::I32)), "OBL:C05.primitive.layout_of_32_bit_integers_is_u32_i32");
+        assert!(same::<u64>(Primitive::Int(IntKind::Unsigned, IntSize::I64)) && same::<i64>(Primitive::Int(IntKind::Signed, IntSize::I64)), "OBL:C05.primitive.layout_of_64_bit_integers_is_u64_i64");
+        assert!(same::<f32>(Primitive::Float(FloatSize::F32)) && same::<f64>(Primitive::Float(FloatSize::F64)), "OBL:C05.primitive.layout_of_floats_is_f32_f64");
+        assert!(same::<bool>(Primitive::Bool), "OBL:C05.primitive.layout_of_bool_is_rust_bool");
+        assert!(same::<char>(Primitive::Char), "OBL:C05.primitive.layout_of_char_is_rust_char");
+        assert!(same::<inetnum::asn::Asn>(Primitive::Asn), "OBL:C05.primitive.layout_of_asn_is_inetnum_asn");
+        assert!(same::<std::net::IpAddr>(Primitive::IpAddr), "OBL:C05.primitive.layout_of_ipaddr_is_std_ipaddr");
+        assert!(same::<inetnum::addr::Prefix>(Primitive::Prefix), "OBL:C05.primitive.layout_of_prefix_is_inetnum_prefix");
+        assert!(same::<crate::RotoString>(Primitive::String), "OBL:C05.primitive.layout_of_string_is_one_shared_pointer_pair");
+        kani::cover!(true, "COV:C05.primitive.reached");
+    }
 }
